@@ -35,7 +35,8 @@ pub struct Log {
     pub n_restore: std::cell::Cell<u32>,
     pub n_restore_flagdiff: std::cell::Cell<u32>,
     pub in_attempt: std::cell::Cell<bool>,
-    pub loop_last: std::cell::Cell<(u32, usize, u32)>,
+    pub loop_acts: std::cell::RefCell<std::collections::HashMap<u64, (usize, u32)>>,
+    pub loop_next: std::cell::Cell<u64>,
     pub rule_last: std::cell::Cell<(usize, u32)>,
     pub n_loop: std::cell::Cell<u64>,
     pub n_rule: std::cell::Cell<u64>,
@@ -231,6 +232,7 @@ impl<'a> Parser<'a> {
             }
             if self.error_since_advance != s.5 || self.error_node.is_some() != s.6 {
                 log.n_restore_flagdiff.set(log.n_restore_flagdiff.get() + 1);
+                log.violation(format!("C08 active error state after restore (error_since_advance {}, open error node {}) differs from before the attempt ({}, {}) at pos {}", self.error_since_advance, self.error_node.is_some(), s.5, s.6, s.1));
             }
         } else {
             log.violation("C08 restore without a snapshot".to_string());
@@ -244,28 +246,31 @@ impl<'a> Parser<'a> {
             a.push_str(&format!("{site}:{alt} "));
         }
     }
-    fn probe_loop_enter(&self, site: u32) {
-        // a new dynamic activation of the loop (possibly nested in a recursion): count from zero
-        let (s, p, _) = self.context.log.loop_last.get();
-        if s == site {
-            self.context.log.loop_last.set((s, p, 0));
-        }
+    fn probe_loop_enter(&self, _site: u32) -> u64 {
+        // a new dynamic activation of a loop (possibly nested in a recursion of the same site)
+        let log = &self.context.log;
+        let a = log.loop_next.get() + 1;
+        log.loop_next.set(a);
+        a
     }
-    fn probe_loop(&self, site: u32) {
+    fn probe_loop(&self, site: u32, act: u64) {
         let log = &self.context.log;
         log.n_loop.set(log.n_loop.get() + 1);
-        let (s, p, n) = log.loop_last.get();
         let ntok = log.toks.borrow().len();
         if self.pos > ntok + 1 {
             panic!("VERIF-LIVELOCK cursor ran past the end of input: pos {} > {} tokens (loop site {site})", self.pos, ntok);
         }
-        if s == site && p == self.pos {
-            if n >= 64 {
+        // one activation of one loop iterating 64 times at the same input position: the parser is
+        // deterministic and its remaining state is a few flags, so it will never leave
+        let mut acts = log.loop_acts.borrow_mut();
+        let e = acts.entry(act).or_insert((self.pos, 0));
+        if e.0 == self.pos {
+            e.1 += 1;
+            if e.1 > 64 {
                 panic!("VERIF-LIVELOCK loop site {site} iterated 64 times at pos {} without consuming", self.pos);
             }
-            log.loop_last.set((s, p, n + 1));
         } else {
-            log.loop_last.set((site, self.pos, 1));
+            *e = (self.pos, 1);
         }
     }
     fn probe_rule(&self, name: &str) {
